@@ -289,9 +289,20 @@ pub fn gen_linkaddr(thorough: bool, seed: u64, w: &mut dyn Write) {
         g.line(&format!("new o 0 {} 2048 c s", OUTST));
         let k = r.range(1, 12);
         for _ in 0..k {
-            match r.below(6) {
+            match r.below(8) {
                 0 => g.line(&format!("feed {}", hex(&ref_frame(0xC0, OUTST, MASTER, &[])))),
                 1 => g.line("reset"),
+                2 | 3 => {
+                    // any other link frame in between: only a VALID reset (PRM, right DIR, FCV = 0, to us) may
+                    // change the secondary station's state — not one the layer says it ignores (S76)
+                    let mut c = if r.chance(1, 2) { *r.pick(&[0xD0u8, 0xF0, 0xE0, 0x40, 0x50, 0x80, 0x00, 0xC2, 0xD2, 0xF2, 0xC9, 0xD9, 0xC4, 0xD4, 0xC1, 0xCB]) } else { r.next() as u8 };
+                    if c & 0x4F == 0x43 {
+                        c ^= 0x01; // confirmed user data is generated (and annotated) below
+                    }
+                    let dst = if r.chance(5, 6) { OUTST } else { *r.pick(&[0xFFFFu16, 77, 0xFFFC]) };
+                    let payload: Vec<u8> = if c & 0x4F == 0x44 { vec![0xC0 | (r.below(64) as u8), 0x55] } else { vec![] };
+                    g.line(&format!("feed {}", hex(&ref_frame(c, dst, MASTER, &payload))));
+                }
                 _ => {
                     let fcb = if r.chance(1, 2) { 0x20 } else { 0 };
                     let dst = if r.chance(1, 6) { 0xFFFF } else { OUTST };
@@ -381,8 +392,16 @@ pub fn run(ops: &str, out: &mut dyn Write, mon: &mut dyn Write) {
                             if dst >= 0xFFFD && !replies.is_empty() {
                                 writeln!(mon, "MONITOR-FAIL {hdr} :: broadcast_never_acked :: confirmed data to {dst} acked").unwrap();
                             }
-                        } else if kind == "fcb" && unhex(h).get(3) == Some(&0xC0) {
-                            sec_reset = Some(true);
+                        } else if kind == "fcb" {
+                            // reference: the secondary station is reset by exactly the frames that are a valid
+                            // RESET_LINK_STATES from a master to this outstation
+                            let b = unhex(h);
+                            if b.len() >= 10 {
+                                let (c, dst, src) = (b[3], u16::from_le_bytes([b[4], b[5]]), u16::from_le_bytes([b[6], b[7]]));
+                                if c & 0xC0 == 0xC0 && c & 0x10 == 0 && c & 0x0F == 0 && dst == local && src < 0xFFF0 {
+                                    sec_reset = Some(true);
+                                }
+                            }
                         }
                     }
                     ["write", dest, h] => {
